@@ -1,370 +1,55 @@
 /-
-  VProofs.EventTamper — what the identity of a received event is computed from when the redaction
-  of its stripped form carries a re-emitted `event_id` (a case variant such as `Event_id` in the
-  input): helper lemmas for C04's `tamper_redactable_same_identity`.  Core Lean only.
+  VProofs.EventTamper — helper lemmas for C04's `tamper_redactable_same_identity`: the stripped form
+  of a received event of the formats with a computed ID has no `event_id` member (the constructors
+  delete the key, and the model's domain has no duplicate keys), so — redaction matching keys exactly —
+  its redaction has none either, whatever case variants (`Event_id`) the sender put in.  Core Lean only.
 
-  * `redactObj_dropEventID`   redacting (redaction minus `event_id`) returns it unchanged
-  * `redactObj_numsOk`        redaction keeps number literals grammatical
-  * `no_variant_of_same_canon` if the redaction minus `event_id` has the canonical bytes of the
-                              stripped input, the input has no member matching `event_id`
+  (Before the repair of `redactEventJSON` this file carried the analysis of the `event_id` member that
+  the keep struct re-emitted for a case variant: `redactObj_dropEventID`, `no_variant_of_same_canon`.
+  With exact key matching that member cannot arise and those lemmas are gone.)
 -/
 import VProofs.EventParse
-import VProofs.RedactCongr
-import VProofs.JsonClosure
 namespace V.EventProofs
 open V V.Json V.GoJson V.Redact V.EventParse V.RedactProofs
 
-/-! ## deleting one key from a redaction's output -/
+theorem deleteFirst_keys_sublist (k : Bytes) : ∀ l : EventParse.Obj, List.Sublist (keysOf (deleteFirst k l)) (keysOf l)
+  | [] => List.Sublist.refl _
+  | x :: rest => by
+    unfold deleteFirst
+    split
+    · exact List.Sublist.cons _ (List.Sublist.refl _)
+    · exact List.Sublist.cons_cons _ (deleteFirst_keys_sublist k rest)
 
-theorem deleteFirst_noKey (k : Bytes) (l : EventParse.Obj) (h : ∀ kv ∈ l, kv.1 ≠ k) : deleteFirst k l = l := by
-  induction l with
-  | nil => rfl
-  | cons kv rest ih =>
-    have hk : (kv.1 == k) = false := by simpa using h kv List.mem_cons_self
-    simp only [deleteFirst, hk, Bool.false_eq_true, if_false]
-    rw [ih (fun x hx => h x (List.mem_cons_of_mem _ hx))]
+theorem deleteFirst_keys_nodup (k : Bytes) (l : EventParse.Obj) (h : (keysOf l).Nodup) : (keysOf (deleteFirst k l)).Nodup :=
+  (deleteFirst_keys_sublist k l).nodup h
 
-theorem deleteFirst_flatMap (k : Bytes) (E : Field → EventParse.Obj) (hE : ∀ f, E f = [] ∨ ∃ v, E f = [(f.name, v)]) :
-    ∀ fs : List Field, (fs.map (·.name)).Nodup →
-      deleteFirst k (fs.flatMap E) = fs.flatMap (fun f => if f.name == k then [] else E f) := by
-  intro fs
-  induction fs with
-  | nil => intro _; rfl
-  | cons f fs ih =>
-    intro hnd
-    rw [List.map_cons, List.nodup_cons] at hnd
-    simp only [List.flatMap_cons]
-    have hkeys : ∀ kv ∈ fs.flatMap E, ∃ g ∈ fs, kv.1 = g.name := by
-      intro kv hkv
-      obtain ⟨g, hg, hkv'⟩ := List.mem_flatMap.mp hkv
-      rcases hE g with h0 | ⟨v, h1⟩
-      · rw [h0] at hkv'; cases hkv'
-      · rw [h1] at hkv'; simp only [List.mem_singleton] at hkv'; exact ⟨g, hg, by rw [hkv']⟩
-    by_cases hfk : f.name = k
-    · have hb : (f.name == k) = true := by simp [hfk]
-      simp only [hb, if_true, List.nil_append]
-      have hrest : ∀ kv ∈ fs.flatMap E, kv.1 ≠ k := by
-        intro kv hkv hk
-        obtain ⟨g, hg, hn⟩ := hkeys kv hkv
-        apply hnd.1
-        rw [hfk, ← hk, hn]
-        exact List.mem_map.mpr ⟨g, hg, rfl⟩
-      have hcong : fs.flatMap (fun f => if f.name == k then [] else E f) = fs.flatMap E := by
-        apply flatMap_congr'
-        intro g hg
-        have : (g.name == k) = false := by
-          rw [beq_eq_false_iff_ne]; intro e
-          apply hnd.1; rw [hfk, ← e]; exact List.mem_map.mpr ⟨g, hg, rfl⟩
-        simp [this]
-      rw [hcong]
-      rcases hE f with h0 | ⟨v, h1⟩
-      · rw [h0, List.nil_append]; exact deleteFirst_noKey k _ hrest
-      · rw [h1, hfk]; simp [deleteFirst]
-    · have hb : (f.name == k) = false := by simp [hfk]
-      simp only [hb, Bool.false_eq_true, if_false]
-      rcases hE f with h0 | ⟨v, h1⟩
-      · rw [h0, List.nil_append, List.nil_append]; exact ih hnd.2
-      · rw [h1]
-        simp only [List.cons_append, List.nil_append, deleteFirst, hb, Bool.false_eq_true, if_false]
-        rw [ih hnd.2]
+theorem keys_nodup_of_noDupKeys {l : EventParse.Obj} (h : (JVal.obj l).noDupKeys = true) : (keysOf l).Nodup := by
+  simp only [JVal.noDupKeys, Bool.and_eq_true] at h
+  exact (noDupIn_iff_nodup _).mp h.1
 
-theorem sel_nil_of_members_nil {kvs : EventParse.Obj} {n : Bytes} (h : members kvs n = []) : sel n kvs = [] := by
-  unfold members at h
-  exact List.map_eq_nil_iff.mp h
-
-/-- **Redacting a redaction from which `event_id` was dropped returns it unchanged** (whenever it
-    succeeds — which is what the constructors need to compute the event ID of the re-parsed event). -/
-theorem redactObj_dropEventID {a : Algo} (hT : tablesOk a = true) {g : Field} (hg : g ∈ a.fields)
-    (hgn : g.name = b!"event_id") (hgk : g.kind = .raw)
-    {kvs rk : EventParse.Obj} (h : redactObj a kvs = .ok (.obj rk)) {v : JVal}
-    (h' : redactObj a (deleteFirst b!"event_id" rk) = .ok v) :
-    v = .obj (deleteFirst b!"event_id" rk) := by
-  obtain ⟨tf, cf, F, hv⟩ := redactObj_ok h
-  have hrk : rk = outputOf a kvs tf cf := by injection hv
-  obtain ⟨F1, hout⟩ := outputOf_idem hT F
-  obtain ⟨tf', cf', F2, hv'⟩ := redactObj_ok h'
-  have e1 : tf' = tf := by have := F2.htf; rw [F.htf] at this; exact (Option.some.inj this).symm
-  have e2 : cf' = cf := by have := F2.hcf; rw [F.hcf] at this; exact (Option.some.inj this).symm
-  subst e1 e2
-  obtain ⟨hdist, _, _, _⟩ := tablesOk_parts hT
-  obtain ⟨htfm, htfk⟩ := typeField_mem F.htf
-  obtain ⟨hcfm, hcfk⟩ := contentField_mem F.hcf
-  have hev : a.fields.any (fun f => f.name == b!"event_id") = true :=
-    List.any_eq_true.mpr ⟨g, hg, by simp [hgn]⟩
-  -- which members the fields select after the deletion
-  have hother : ∀ f ∈ a.fields, f ≠ g → sel f.name (deleteFirst b!"event_id" rk) = sel f.name rk := by
-    intro f hf hne
-    apply sel_deleteFirst_other
-    cases hm : matchesField b!"event_id" f.name
-    · rfl
-    · exfalso
-      have := matchesField_fold hm
-      rw [← hgn] at this
-      exact hne (foldDistinct_inj hdist hg hf this).symm
-  have hself : sel g.name (deleteFirst b!"event_id" rk) = [] := by
-    rw [hgn]; exact sel_nil_of_members_nil (no_event_id_member hT hev h)
-  have htg : tf' ≠ g := by intro e; rw [e, hgk] at htfk; cases htfk
-  have hcg : cf' ≠ g := by intro e; rw [e, hgk] at hcfk; cases hcfk
-  have hty : decType tf'.name (deleteFirst b!"event_id" rk) = decType tf'.name rk := by
-    rw [decType_sel, decType_sel, hother tf' htfm htg]
-  have hct : decContent cf'.name (deleteFirst b!"event_id" rk) = decContent cf'.name rk := by
-    rw [decContent_sel, decContent_sel, hother cf' hcfm hcg]
-  rw [hv']
-  congr 1
-  have hdef : outputOf a (deleteFirst b!"event_id" rk) tf' cf' =
-      a.fields.flatMap (emitField (deleteFirst b!"event_id" rk) (decType tf'.name rk).val
-        (newContent a.ctable (decType tf'.name rk).val (decContent cf'.name rk).val)) := by
-    unfold outputOf; rw [hty, hct]
-  have hrk2 : rk = a.fields.flatMap (emitField rk (decType tf'.name rk).val
-      (newContent a.ctable (decType tf'.name rk).val (decContent cf'.name rk).val)) := by
-    have : outputOf a rk tf' cf' = rk := by rw [hrk]; exact hout
-    exact this.symm
-  rw [hdef]
-  conv => rhs; rw [hrk2]
-  rw [deleteFirst_flatMap b!"event_id" _ (fun f => emitField_shape _ _ _ f) a.fields (names_nodup hdist)]
-  apply flatMap_congr'
-  intro f hf
-  by_cases hfe : f.name = b!"event_id"
-  · have hfg : f = g := foldDistinct_inj hdist hf hg (by rw [hfe, hgn])
-    subst hfg
-    have hb : (f.name == b!"event_id") = true := by simp [hfe]
-    simp only [hb, if_true]
-    unfold emitField
-    simp only [hgk]
-    rw [lookupField_sel, hself]
-    rfl
-  · have hb : (f.name == b!"event_id") = false := by simp [hfe]
-    simp only [hb, Bool.false_eq_true, if_false]
-    have hfg : f ≠ g := by intro e; rw [e] at hfe; exact hfe hgn
-    unfold emitField
-    cases hk : f.kind with
-    | raw => simp only; rw [lookupField_sel, lookupField_sel, hother f hf hfg]
-    | str => rfl
-    | map => rfl
-    | unknown => rfl
-
-
-/-! ## redaction keeps number literals grammatical -/
-
-/-- every value of the members is a value with grammatical number literals -/
-def AllNums (m : EventParse.Obj) : Prop := ∀ kv ∈ m, kv.2.numsOk = true
-
-theorem allNums_iff (m : EventParse.Obj) : numsOkMembers m = true ↔ AllNums m := by
-  rw [numsOkMembers_eq_all, List.all_eq_true]; rfl
-
-theorem lastSome_mem (p : Bytes × JVal → Bool) (l : EventParse.Obj) (v : JVal) (h : lastSome p l = some v) :
-    ∃ kv ∈ l, kv.2 = v := by
-  induction l with
-  | nil => cases h
-  | cons x rest ih =>
-    rw [lastSome_cons] at h
-    cases hr : lastSome p rest with
-    | some w =>
-      rw [hr] at h
-      simp only [Option.some.injEq] at h
-      obtain ⟨kv, hkv, hv⟩ := ih (by rw [hr, h])
-      exact ⟨kv, List.mem_cons_of_mem _ hkv, hv⟩
-    | none =>
-      rw [hr] at h
-      simp only at h
-      split at h
-      · simp only [Option.some.injEq] at h
-        exact ⟨x, List.mem_cons_self, h⟩
-      · cases h
-
-theorem setKey_allNums (m : EventParse.Obj) (k : Bytes) (v : JVal) (hm : AllNums m) (hv : v.numsOk = true) :
-    AllNums (setKey m k v) := by
-  unfold setKey
-  split
-  · intro kv hkv
-    obtain ⟨x, hx, hxe⟩ := List.mem_map.mp hkv
-    split at hxe
-    · rw [← hxe]; exact hv
-    · rw [← hxe]; exact hm x hx
-  · intro kv hkv
-    rcases List.mem_append.mp hkv with h | h
-    · exact hm kv h
-    · simp only [List.mem_singleton] at h; rw [h]; exact hv
-
-theorem mergeInto_allNums (acc m : EventParse.Obj) (ha : AllNums acc) (hm : AllNums m) : AllNums (mergeInto acc m) := by
-  unfold mergeInto
-  induction m generalizing acc with
-  | nil => exact ha
-  | cons kv rest ih =>
-    simp only [List.foldl_cons]
-    exact ih _ (setKey_allNums acc kv.1 kv.2 ha (hm kv List.mem_cons_self)) (fun x hx => hm x (List.mem_cons_of_mem _ hx))
-
-theorem contentStep_allNums (acc : ContentDec) (kv : Bytes × JVal) (hkv : kv.2.numsOk = true)
-    (h : ∀ m, acc.val = some m → AllNums m) : ∀ m, (contentStep acc kv).val = some m → AllNums m := by
-  intro m hm
-  unfold contentStep at hm
-  split at hm
-  · rename_i m0 hobj
-    simp only [Option.some.injEq] at hm
-    subst hm
-    apply mergeInto_allNums
-    · cases hv : acc.val with
-      | none => intro x hx; cases hx
-      | some x => simpa using h x hv
-    · rw [hobj] at hkv
-      simp only [JVal.numsOk] at hkv
-      exact (allNums_iff m0).mp hkv
-  · cases hm
-  · exact h m hm
-
-theorem foldl_contentStep_allNums (l : EventParse.Obj) (hl : AllNums l) (acc : ContentDec)
-    (h : ∀ m, acc.val = some m → AllNums m) : ∀ m, (l.foldl contentStep acc).val = some m → AllNums m := by
-  induction l generalizing acc with
-  | nil => exact h
-  | cons kv rest ih =>
-    exact ih (fun x hx => hl x (List.mem_cons_of_mem _ hx)) _ (contentStep_allNums acc kv (hl kv List.mem_cons_self) h)
-
-theorem decContent_allNums (name : Bytes) (kvs : EventParse.Obj) (hk : AllNums kvs) :
-    ∀ m, (decContent name kvs).val = some m → AllNums m := by
-  rw [decContent_sel]
-  apply foldl_contentStep_allNums
-  · intro kv hkv
-    exact hk kv (List.mem_filter.mp hkv).1
-  · intro m hm; cases hm
-
-theorem newContent_allNums (ct : CTable) (ty : Bytes) (c : Option EventParse.Obj) (hc : ∀ m, c = some m → AllNums m) :
-    ∀ m, newContent ct ty c = some m → AllNums m := by
-  intro m hm
-  unfold newContent at hm
-  cases hct : mapGet ct ty with
-  | none =>
-    rw [hct] at hm
-    simp only [Option.some.injEq] at hm
-    subst hm
-    intro kv hkv; cases hkv
-  | some keys =>
-    rw [hct] at hm
-    cases keys with
-    | nil => exact hc m hm
-    | cons k ks =>
-      simp only [Option.some.injEq] at hm
-      subst hm
-      intro kv hkv
-      obtain ⟨key, _, hkey⟩ := List.mem_filterMap.mp hkv
-      cases hg : mapGet (c.getD []) key with
-      | none => rw [hg] at hkey; cases hkey
-      | some v =>
-        rw [hg] at hkey
-        simp only [Option.map_some, Option.some.injEq] at hkey
-        obtain ⟨k', hmem⟩ := mapGet_mem _ _ _ hg
-        cases hcv : c with
-        | none => rw [hcv] at hmem; cases hmem
-        | some m0 =>
-          rw [hcv] at hmem
-          rw [← hkey]
-          exact hc m0 hcv (k', v) hmem
-
-/-- **Redaction keeps number literals grammatical**: the members of the output come from the input. -/
-theorem redactObj_numsOk {a : Algo} {kvs rk : EventParse.Obj} (hk : numsOkMembers kvs = true)
-    (h : redactObj a kvs = .ok (.obj rk)) : numsOkMembers rk = true := by
-  obtain ⟨tf, cf, F, hv⟩ := redactObj_ok h
-  have hrk : rk = outputOf a kvs tf cf := by injection hv
-  have hk' := (allNums_iff kvs).mp hk
-  rw [allNums_iff, hrk]
+/-- **The stripped form has no `event_id`.**  For the formats whose ID is computed, the constructors
+    delete `event_id` from the received text; the text has no duplicate keys (the model's domain), so
+    no member with exactly that key is left. -/
+theorem stripped_no_event_id {fmt : Fmt} (hv : fmt ≠ .v1) {kvs0 kvs : EventParse.Obj}
+    (hnd : (JVal.obj kvs0).noDupKeys = true) (hs : stripped fmt (.obj kvs0) = .obj kvs) :
+    lookupExact kvs b!"event_id" = none := by
+  have hk : kvs = deleteKeys (stripKeys fmt) kvs0 := by
+    unfold stripped at hs
+    injection hs with h; exact h.symm
+  have hkeys : stripKeys fmt = [b!"outlier", b!"destinations", b!"age_ts", b!"unsigned", b!"event_id"] := by
+    unfold stripKeys
+    rw [if_neg (by simp [hv])]
+  have h0 := keys_nodup_of_noDupKeys hnd
+  have h4 : (keysOf (deleteFirst b!"unsigned" (deleteFirst b!"age_ts" (deleteFirst b!"destinations"
+      (deleteFirst b!"outlier" kvs0))))).Nodup :=
+    deleteFirst_keys_nodup _ _ (deleteFirst_keys_nodup _ _ (deleteFirst_keys_nodup _ _ (deleteFirst_keys_nodup _ _ h0)))
+  have hform : kvs = deleteFirst b!"event_id" (deleteFirst b!"unsigned" (deleteFirst b!"age_ts" (deleteFirst b!"destinations"
+      (deleteFirst b!"outlier" kvs0)))) := by
+    rw [hk, hkeys]; rfl
+  rw [lookupExact_eq, hform]
+  apply lastSome_none_of_forall
   intro kv hkv
-  obtain ⟨f, _, hkv'⟩ := List.mem_flatMap.mp hkv
-  unfold emitField at hkv'
-  split at hkv'
-  · split at hkv'
-    · cases hkv'
-    · simp only [List.mem_singleton] at hkv'; rw [hkv']; rfl
-  · split at hkv'
-    · split at hkv'
-      · cases hkv'
-      · simp only [List.mem_singleton] at hkv'; rw [hkv']; rfl
-    · rename_i m hnc
-      split at hkv'
-      · cases hkv'
-      · simp only [List.mem_singleton] at hkv'; rw [hkv']
-        simp only [JVal.numsOk]
-        exact (allNums_iff m).mpr (newContent_allNums _ _ _ (decContent_allNums cf.name kvs hk') m hnc)
-  · split at hkv'
-    · rename_i v hl
-      simp only [List.mem_singleton] at hkv'; rw [hkv']
-      rw [lookupField_eq] at hl
-      obtain ⟨x, hx, hxv⟩ := lastSome_mem _ _ _ hl
-      rw [← hxv]; exact hk' x hx
-    · cases hkv'
-  · cases hkv'
-
-
-/-! ## same canonical bytes, same keys -/
-
-theorem keys_perm_of_canon_eq {A B : EventParse.Obj} (hA : numsOkMembers A = true) (hB : numsOkMembers B = true)
-    (h : encodeCanon (.obj A) = encodeCanon (.obj B)) : (keysOf A).Perm (keysOf B) := by
-  have hinj := encodeCanon_inj (.obj A) (.obj B) (by simpa [JVal.numsOk] using hA) (by simpa [JVal.numsOk] using hB) h
-  simp only [JVal.sorted, JVal.normNums, JVal.obj.injEq] at hinj
-  have hk := congrArg (List.map (·.1)) hinj
-  rw [normNumsMembers_eq_map, normNumsMembers_eq_map, List.map_map, List.map_map] at hk
-  have e : ∀ X : EventParse.Obj, List.map ((fun x => x.1) ∘ fun kv : Bytes × JVal => (kv.1, kv.2.normNums)) X = X.map (·.1) :=
-    fun X => List.map_congr_left (fun _ _ => rfl)
-  rw [e, e] at hk
-  have pA : ((sortByKey (sortedMembers A)).map (·.1)).Perm (keysOf A) := by
-    have := (sortByKey_perm (sortedMembers A)).map (·.1)
-    rw [sortedMembers_keys'] at this
-    exact this
-  have pB : ((sortByKey (sortedMembers B)).map (·.1)).Perm (keysOf B) := by
-    have := (sortByKey_perm (sortedMembers B)).map (·.1)
-    rw [sortedMembers_keys'] at this
-    exact this
-  exact pA.symm.trans (hk ▸ pB)
-
-/-- **No hidden variant.**  If the redaction of `k`, with `event_id` dropped, has the canonical bytes
-    of `k` itself (the constructors then keep the decoded event instead of re-parsing), then `k` has no
-    member the struct decoding would read as `event_id`, and its redaction has no `event_id` member. -/
-theorem no_variant_of_same_canon {a : Algo} (hT : tablesOk a = true) {g : Field} (hg : g ∈ a.fields)
-    (hgn : g.name = b!"event_id") (hgk : g.kind = .raw)
-    {k rk : EventParse.Obj} (hnum : numsOkMembers k = true) (h : redactObj a k = .ok (.obj rk))
-    (hc : encodeCanon (.obj (deleteFirst b!"event_id" rk)) = encodeCanon (.obj k)) :
-    lookupExact rk b!"event_id" = none := by
-  obtain ⟨hdist, _, _, _⟩ := tablesOk_parts hT
-  have hev : a.fields.any (fun f => f.name == b!"event_id") = true :=
-    List.any_eq_true.mpr ⟨g, hg, by simp [hgn]⟩
-  have hnrk := redactObj_numsOk hnum h
-  have hnd : numsOkMembers (deleteFirst b!"event_id" rk) = true := by
-    rw [allNums_iff]
-    intro kv hkv
-    exact (allNums_iff rk).mp hnrk kv (deleteFirst_sub _ _ kv hkv)
-  have hperm := keys_perm_of_canon_eq hnd hnum hc
-  have hnone : sel b!"event_id" (deleteFirst b!"event_id" rk) = [] :=
-    sel_nil_of_members_nil (no_event_id_member hT hev h)
-  -- no member of `k` is read as `event_id`
-  have hselk : sel b!"event_id" k = [] := by
-    apply filter_eq_nil_of
-    intro kv hkv
-    cases hm : matchesField kv.1 b!"event_id"
-    · rfl
-    · exfalso
-      have hin : kv.1 ∈ keysOf (deleteFirst b!"event_id" rk) :=
-        hperm.symm.subset (List.mem_map.mpr ⟨kv, hkv, rfl⟩)
-      obtain ⟨kv', hkv', hk1⟩ := List.mem_map.mp hin
-      have : kv' ∈ sel b!"event_id" (deleteFirst b!"event_id" rk) := by
-        unfold sel
-        exact List.mem_filter.mpr ⟨hkv', by show matchesField kv'.1 _ = true; rw [hk1]; exact hm⟩
-      rw [hnone] at this
-      cases this
-  -- so the `event_id` field emits nothing
-  obtain ⟨tf, cf, F, hv⟩ := redactObj_ok h
-  have hrk : rk = outputOf a k tf cf := by injection hv
-  rw [lookupExact_eq, lastSome_none_iff]
-  intro kv hkv
-  cases hb : kv.1 == b!"event_id"
-  · rfl
-  · exfalso
-    have hke : kv.1 = b!"event_id" := eq_of_beq hb
-    rw [hrk] at hkv
-    obtain ⟨f, hf, hkv'⟩ := List.mem_flatMap.mp hkv
-    have hfn : kv.1 = f.name := emitField_name hkv'
-    have hfg : f = g := foldDistinct_inj hdist hf hg (by rw [← hfn, hke, hgn])
-    subst hfg
-    unfold emitField at hkv'
-    simp only [hgk] at hkv'
-    rw [lookupField_sel, hgn, hselk] at hkv'
-    cases hkv'
+  have := deleteFirst_removes _ _ h4 kv hkv
+  simpa using this
 
 end V.EventProofs
